@@ -160,10 +160,19 @@ func c06Sparse(t *rapid.T) []kit.Argv {
 		names = append(names, k)
 		out = append(out, kit.A(pick(t, "mk", []string{"SET", k, "v"}, []string{"RPUSH", k, "e"}, []string{"SADD", k, "m"}, []string{"HSET", k, "f", "v"})...))
 	}
-	for i := rapid.IntRange(0, 25).Draw(t, "cycles"); i > 0; i-- {
-		out = append(out, kit.A("SET", "churn", "1"), kit.A(pick(t, "rm", "DEL", "UNLINK", "GETDEL"), "churn"))
+	for phase := rapid.IntRange(1, 4).Draw(t, "phases"); phase > 0; phase-- {
+		rm := pick(t, "rm", "DEL", "DEL", "GETDEL")
+		for i := churnCount(t); i > 0; i-- {
+			out = append(out, kit.A("SET", "churn", "1"), kit.A(rm, "churn"))
+		}
+		out = append(out, c06SparseOps(t, names, name)...)
 	}
-	for i := rapid.IntRange(1, 4).Draw(t, "after"); i > 0; i-- {
+	return out
+}
+
+func c06SparseOps(t *rapid.T, names []string, name func() string) []kit.Argv {
+	var out []kit.Argv
+	for i := rapid.IntRange(1, 3).Draw(t, "after"); i > 0; i-- {
 		out = append(out, kit.A(pick(t, "sparseop", []string{"KEYS", "w*"}, []string{"DBSIZE"}, []string{"RANDOMKEY"}, []string{"DEL", pick(t, "dk", names...)}, []string{"RENAME", pick(t, "rk", names...), name()},
 			[]string{"EXISTS", names[0], names[len(names)-1]}, []string{"COPY", names[0], name()}, []string{"TYPE", names[0]})...))
 	}
